@@ -62,12 +62,16 @@ class Device:
 class AccfgMachine(Machine):
     EXTRA = TABLE
 
-    def __init__(self, mod, env, accs: dict[str, list[str]], label="ref", check_infer=False, check_thread=False, infer_cache=None):
+    def __init__(self, mod, env, accs: dict[str, list[str]], label="ref", check_infer=False, check_thread=False, infer_cache=None, log_setups=False, poweron_zero=()):
         super().__init__(mod)
         self.env = env
         self.seed = env["seed"]
         self.dev = {a: Device(a, fs, label) for a, fs in accs.items()}
         self.hist: list = []
+        self.log_setups = log_setups
+        for a in poweron_zero:
+            for f in self.dev[a].regs:
+                self.dev[a].regs[f] = 0
         self.check_infer = check_infer
         self.check_thread = check_thread
         self.evid = 0
@@ -192,6 +196,8 @@ def _setup(m: AccfgMachine, op, vals, core):
     for name, v in op.iter_params():
         d.regs[name] = m.get(vals, v)
         d.written.add(name)
+    if m.log_setups:
+        m.hist.append(("setup", d.name, tuple((n, m.get(vals, v)) for n, v in op.iter_params()), dict(d.regs)))
     m.evid += 1
     d.last_writer = ("setup", m.evid)
     vals[op.out_state] = ("state", d.last_writer)
